@@ -77,9 +77,16 @@ class _LoggedFile:
 
 class BufferedChunkedStream(io.BufferedIOBase):
     """an io.BufferedIOBase subclass whose read(n) still returns short reads (allowed: "at most n bytes")"""
+    _log = None
+
     def __init__(self, content, chunks):
         super().__init__()
         self._raw = fake_net.ChunkedStream(content, chunks)
+
+    def __exit__(self, *a):
+        if self._log is not None:
+            self._log.append(("close_file",))
+        return super().__exit__(*a)
 
     def readable(self):
         return True
@@ -110,6 +117,7 @@ def open_stream(c, log, tmpfiles):
         f = fake_net.ChunkedStream(c["content"], c["chunks"])
     elif k[0] == "bufshort":
         f = BufferedChunkedStream(c["content"], c["chunks"])
+        f._log = log
     elif k[0] == "bytesio":
         f = _LoggedBytesIO(b"P" * k[1] + c["content"])
         f._log = log
@@ -155,7 +163,7 @@ def run_impl(c, handler=None):
 
     def default_handler(filename, client, server, context):
         f = open_stream(c, loghook, tmpfiles)
-        return f if isinstance(f, _LoggedBytesIO) else _LoggedFile(f, loghook)
+        return f if isinstance(f, (_LoggedBytesIO, BufferedChunkedStream)) else _LoggedFile(f, loghook)
     script = [(t, ADDRS[a], d) for (t, a, d) in c["events"]]
     try:
         log = fake_net.run_transfer(script, handler or default_handler, dict(c["options"]),
